@@ -1,7 +1,7 @@
 """C08 — an argument is generated safe-to-log exactly when all it can hold is safe."""
 from ..facts import ty_adt, tystr, walk_ty, place_local, place_proj, op_place
 from ..cfg import CFG, Tracer, thaw
-from .. import dt, instance, safety, minterp
+from .. import dt, instance, safety, minterp, tguard
 
 LS = "conjure_codegen::types::log_safety::LogSafety"
 TY = "conjure_codegen::types::type_::Type"
@@ -56,50 +56,48 @@ def run(ctx):
     typed = [(bb, t) for bb, t in local_calls if tystr(d.local_ty(place_local(t["dest"]))).startswith(OPT)]
     ctx.check(len(legacy) == 1 and len(typed) == 1, "R8.1", d.loc(), "decision|shape", f"expected one legacy check and one type-derived check, found {len(legacy)} / {len(typed)}", nontrivial=False)
     if len(legacy) == 1 and len(typed) == 1:
-        def explicit_edge(bb):
-            for s, allowed, allv in dt.edge_conditions(cfg, bb):
-                atom = dt.switch_atom(d, s)
-                if atom[0] == "discr" and dt.derives_from_call(d, {"cp": place_local(atom[1])}, sbb[0]):
-                    return dt.allowed_variants(allowed, allv, ["None", "Some"])
-            return None
-        ctx.check(explicit_edge(legacy[0][0]) == {"None"}, "R8.1", d.loc(legacy[0][1]["ln"]), "decision|legacy-after-explicit",
-                  "the legacy safe marker/tag check must be reachable only when the argument has no explicit safety declaration (an explicit unsafe / do-not-log always wins)",
-                  instance="legacy check on the None edge of arg.safety()")
-        lpol = None
-        for s, allowed, allv in dt.edge_conditions(cfg, typed[0][0]):
-            atom = dt.switch_atom(d, s)
-            if atom[0] == "call" and atom[2] == legacy[0][0]:
-                lpol = dt.bool_polarity(allowed)
-        ctx.check(explicit_edge(typed[0][0]) == {"None"} and lpol is False, "R8.1", d.loc(typed[0][1]["ln"]), "decision|type-last",
-                  "the type-derived check must run only when there is neither an explicit declaration nor a legacy marker", instance="type-derived check after explicit and legacy")
-        # Some edge: returns == Safe
-        eqs = [(bb, t) for bb, t in d.calls() if t["call"]["def"] in ("core::cmp::PartialEq::eq",) and place_local(t["dest"]) == 0]
-        ok_some = False
-        ok_type = False
-        for bb, t in eqs:
-            side = explicit_edge(bb)
-            vals = []
-            for a in t["args"]:
-                cst = dt.resolve_const(d, a)
-                if cst and "promoted" in cst:
+        # decision table of the argument-safety decision by constant propagation: one run per (declared safety, legacy marker,
+        # type-derived safety); precedence explicit > legacy > type is read off the table, whatever the control-flow style
+        lsv = [v["name"] for v in F.adt(LS)["variants"]]
+        OPTP = "core::option::Option"
+        declared_dom = [None] + lsv
+        typed_dom = [None] + lsv
+        legacy_id, typed_id = legacy[0][1]["call"]["id"], typed[0][1]["call"]["id"]
+        bad, rows, unsupported = [], 0, None
+        for dcl in declared_dom:
+            for leg in (False, True):
+                for tys in typed_dom:
+                    used = set()
+
+                    def oracle(f, argv, dcl=dcl, leg=leg, tys=tys, used=used):
+                        if f.get("name") == "safety" and "ArgumentDefinition" in f.get("def", ""):
+                            used.add("declared")
+                            return minterp.adt(OPTP, 0, []) if dcl is None else minterp.adt(OPTP, 1, [minterp.adt(LS, lsv.index(dcl), [])])
+                        if f.get("id") == legacy_id:
+                            used.add("legacy")
+                            return leg
+                        if f.get("id") == typed_id:
+                            used.add("typed")
+                            return minterp.adt(OPTP, 0, []) if tys is None else minterp.adt(OPTP, 1, [minterp.adt(LS, lsv.index(tys), [])])
+                        return minterp.NO_VALUE
+                    I2 = minterp.Interp(F, c, inline=lambda d_, rid: rid not in (legacy_id, typed_id) and rid != d.id, max_depth=2)
+                    I2.call_oracle = oracle
                     try:
-                        vals.append(I.promoted(d, cst["promoted"]))
-                    except minterp.Unsupported:
-                        pass
-            if side == {"Some"}:
-                ok_some = any(minterp.is_adt(v) and v[1] == LS and I.variant_name(LS, v[2]) == "Safe" for v in vals) and any(dt.derives_from_call(d, a, sbb[0]) for a in t["args"])
-            elif side == {"None"}:
-                ok_type = any(opt(I, v) == "Safe" for v in vals) and any(dt.derives_from_call(d, a, typed[0][0]) for a in t["args"])
-        ctx.check(ok_some, "R8.1", d.loc(), "decision|explicit-wins", "with an explicit declaration the result must be `declaration == Safe`", instance="Some(s) -> s == Safe")
-        ctx.check(ok_type, "R8.1", d.loc(), "decision|type-equals-safe", "the type-derived result must be compared with Some(Safe)", instance="type safety == Some(Safe)")
-        trues = [bb for bb, j, s in d.stmts() if place_local(s["d"]) == 0 and "use" in s["r"] and (s["r"]["use"].get("c") or {}).get("bool") is True]
-        ok_l = False
-        for bb in trues:
-            for s, allowed, allv in dt.edge_conditions(cfg, bb):
-                atom = dt.switch_atom(d, s)
-                if atom[0] == "call" and atom[2] == legacy[0][0] and dt.bool_polarity(allowed) is True:
-                    ok_l = True
-        ctx.check(ok_l and len(trues) == 1, "R8.1", d.loc(), "decision|legacy-true", "constant `true` may be returned only on the legacy check's true edge", instance="legacy == true -> true")
+                        r = I2.run(d, [("sym", "self"), ("sym", "arg")])
+                    except minterp.Unsupported as e:
+                        unsupported = str(e)
+                        continue
+                    rows += 1
+                    exp = (dcl == "Safe") if dcl is not None else (leg or tys == "Safe")
+                    if r is not exp:
+                        bad.append(f"declared={dcl}, legacy marker={leg}, type-derived={tys}: returns {r}, specification {exp}")
+                    # precedence also means the later sources are not consulted needlessly in a way that changes the result: covered by the table
+        if unsupported and not rows:
+            ctx.violation("R8.1", d.loc(), "decision|unsupported", f"the argument-safety decision left the analysable fragment: {unsupported}")
+        else:
+            ctx.check(not bad and rows == len(declared_dom) * 2 * len(typed_dom), "R8.1", d.loc(), "decision|table",
+                      "argument-safety decision differs from `explicit declaration wins (== Safe); otherwise legacy marker or type-derived == Safe`: " + "; ".join(bad[:4]) + (f" ({unsupported})" if unsupported else ""),
+                      instance=f"decision table over declared x legacy x type-derived: {rows} rows = specification (explicit > legacy > type)")
         # legacy constants
         lb = c.body(legacy[0][1]["call"]["id"])
         consts = set()
@@ -111,10 +109,13 @@ def run(ctx):
                         cst = dt.resolve_const(x, a)
                         if cst and "str" in cst:
                             consts.add(cst["str"])
-                    if t["call"].get("local") and t["call"]["def"].startswith("conjure_codegen::context::") and depth < 2:
-                        cb = c.body(t["call"]["id"])
-                        if cb is not None and cb.id != b.id:
-                            collect(cb, depth + 1)
+                    targets = [t["call"]] + [(a.get("c") or {}).get("fn") for a in t["args"]]
+                    for f_ in targets:
+                        # direct local calls and local functions passed as values (`.any(Self::is_marker)`)
+                        if f_ and f_.get("local") and f_.get("def", "").startswith("conjure_codegen::context::") and depth < 3:
+                            cb = c.body(f_.get("id"))
+                            if cb is not None and cb.id != b.id:
+                                collect(cb, depth + 1)
         if lb is not None:
             collect(lb)
         ctx.check(consts == {"safe", "com.palantir.logsafe", "Safe"}, "R8.1", lb.loc() if lb else d.loc(), "legacy|constants",
@@ -150,10 +151,12 @@ def run(ctx):
                 txt = q["text"].replace(" ", "")
                 if txt in (",safe", "safe"):
                     found += 1
-                    import re as _re
-                    ok = any(_re.fullmatch(r"if\s*&?\s*\w+\s*\.\s*" + d.name + r"\s*\(\s*&?\s*\w+\s*\)", cnd.strip()) for cnd in q["conds"]) and len(q["conds"]) == 1
-                    ctx.check(ok, "R8.5", f"{fn['file']}:{q['line']}", f"{fn['name']}|safe-under-decision", f"generator: the `safe` attribute in {fn['name']} is emitted under {q['conds']}, not under the argument-safety decision ({d.name})",
-                              instance=f"{fn['name']}: `safe` emitted iff {d.name}(arg)")
+                    v = tguard.positive_guard(q["conds"], d.name)
+                    if v is None:
+                        ctx.note(f"R8.5 {fn['name']}: the `safe` attribute's conditions {q['conds']} do not mention {d.name}; no generator-level verdict (instance: R8.4)")
+                    else:
+                        ctx.check(v, "R8.5", f"{fn['file'].split('/repo/')[-1]}:{q['line']}", f"{fn['name']}|safe-under-decision", f"generator: the `safe` attribute in {fn['name']} is emitted under {q['conds']}, not exactly under the argument-safety decision ({d.name})",
+                                  instance=f"{fn['name']}: `safe` emitted iff {d.name}(arg)")
         ctx.floor("R8.5", "`safe` attribute templates in the server generator", found, 1)
 
     # ---------------- R8.6 an error's parameters enter the log-safety computation with their declared safety
@@ -266,31 +269,72 @@ def check_tables(ctx, F, c, I, tb):
     fam = {x.id: x for x in [nb] + c.closures_of(nb)}
 
     def fold_info(kind):
+        """(form, initial accumulator) of the member fold of one definition kind: iterator fold / try_fold, or an explicit
+        loop `acc = init; for m in members { acc = combine(acc, m)? }`; None when neither form is recognised"""
         folds = [t for t in arms.get(kind, []) if t["call"]["name"] in ("try_fold", "fold")]
-        if len(folds) != 1:
+        if len(folds) == 1:
+            t = folds[0]
+            init = t["args"][1]
+            r = dt.resolve_copy(nb, init)
+            iv = "?"
+            if r[0] == "def" and r[1][1] != "T" and r[1][2]["r"].get("agg") == "adt":
+                rv = r[1][2]["r"]
+                iv = rv["variant"] if rv["adt"] == LS else ("None" if rv["variant"] == "None" else "Some(?)")
+            return t["call"]["name"], iv
+        if folds:
             return None
-        t = folds[0]
-        init = t["args"][1]
-        r = dt.resolve_copy(nb, init)
-        iv = "?"
-        if r[0] == "def" and r[1][1] != "T" and r[1][2]["r"].get("agg") == "adt":
-            rv = r[1][2]["r"]
-            iv = rv["variant"] if rv["adt"] == LS else ("None" if rv["variant"] == "None" else "Some(?)")
-        return t["call"]["name"], iv
+        # explicit loop: a combine call inside a loop of this arm whose accumulator operand is a local initialised before the loop
+        loops = [(bb_, t) for bb_, t in nb.calls() if t in arms.get(kind, []) and t["call"].get("local") and tystr(nb.local_ty(place_local(t["dest"]))).startswith(OPT + "<" + LS) and cfg.in_loop(bb_) and len(t["args"]) == 3]
+        for bb_, t in loops:
+            for a_ in t["args"][1:]:
+                srcs = Tracer(nb, through_agg=True).sources(a_)
+                for s_ in srcs:
+                    while s_[0] == "field":
+                        s_ = s_[1]
+                    if s_[0] == "local":
+                        acc = s_[1]
+                        inits = [d_ for d_ in nb.defs().get(acc, []) if d_[1] != "T" and not cfg.in_loop(d_[0]) and d_[2]["r"].get("agg") == "adt"]
+                        if len(inits) == 1:
+                            rv = inits[0][2]["r"]
+                            iv = rv["variant"] if rv["adt"] == LS else ("None" if rv["variant"] == "None" else "Some(?)")
+                            # the `?` on the combined value ends the loop at unknown: same as try_fold
+                            return ("try_fold" if any(t2["call"]["def"] == dt.TRY_BRANCH for _, t2 in nb.calls() if cfg.in_loop(_)) else "fold"), iv
+        return None
 
     o = fold_info("Object")
-    ctx.check(o == ("try_fold", "Safe"), "R8.2", nb.loc(), "named|Object", f"objects must fold their fields starting from Safe and stop at unknown (found {o})", instance="Object: fields folded from Safe")
+    if o is None:
+        ctx.note("R8.2 named|Object: member fold not in a recognised form (iterator fold / accumulator loop); no generator-level verdict, the generated instance is decided by R8.4")
+    else:
+        ctx.check(o == ("try_fold", "Safe"), "R8.2", nb.loc(), "named|Object", f"objects must fold their fields starting from Safe and stop at unknown (found {o})", instance="Object: fields folded from Safe")
     u = fold_info("Union")
-    ctx.check(u == ("fold", "None"), "R8.2", nb.loc(), "named|Union", f"unions must fold their members starting from unknown (found {u}): a union is never safe", instance="Union: members folded from unknown")
-    # declared safety overrides the type: safety() ... or_else(type safety) in every arm that looks at members
-    for kind in ("Alias", "Object", "Union"):
-        bodies = [nb] + c.closures_of(nb)
-        ok = False
-        for x in bodies:
-            names = [t["call"]["name"] for _, t in x.calls()]
-            if "safety" in names and "or_else" in names and names.index("safety") < names.index("or_else"):
-                ok = True
-        ctx.check(ok, "R8.2", nb.loc(), f"named|{kind}|declared-overrides", "a declared safety must override the type-derived one (safety().or_else(type safety))", instance=f"{kind}: declared.or_else(type)", nontrivial=False)
+    if u is None:
+        ctx.note("R8.2 named|Union: member fold not in a recognised form; no generator-level verdict, the generated instance is decided by R8.4")
+    else:
+        ctx.check(u == ("fold", "None"), "R8.2", nb.loc(), "named|Union", f"unions must fold their members starting from unknown (found {u}): a union is never safe", instance="Union: members folded from unknown")
+    # declared safety overrides the type: safety().or_else(type safety) — inline, or through a private helper whose decision
+    # table is Some(s) -> Some(s), None -> type safety
+    bodies = [nb] + c.closures_of(nb)
+    inline_form = any("safety" in [t["call"]["name"] for _, t in x.calls()] and "or_else" in [t["call"]["name"] for _, t in x.calls()] for x in bodies)
+    helper_form = None
+    for x in bodies:
+        for _, t in x.calls():
+            hb = c.body(t["call"].get("id")) if t["call"].get("local") else None
+            if hb is not None and hb.d.get("vis") != "pub" and hb.argc == 3 and tystr(hb.local_ty(0)).startswith(OPT + "<" + LS) and "Option<&" in tystr(hb.local_ty(2)):
+                I3 = minterp.Interp(F, c, inline=lambda d_, rid: False)
+                try:
+                    r_some = I3.run(hb, [("sym", "self"), minterp.adt(OPT, 1, [("sym", "declared")]), ("sym", "ty")])
+                    r_none = I3.run(hb, [("sym", "self"), minterp.adt(OPT, 0, []), ("sym", "ty")])
+                    ok_s = minterp.is_adt(r_some) and r_some[2] == 1 and "declared" in repr(r_some)
+                    ok_n = isinstance(r_none, tuple) and r_none and r_none[0] == "call" and "ty" in repr(r_none) and "declared" not in repr(r_none)
+                    helper_form = bool(ok_s and ok_n)
+                except minterp.Unsupported:
+                    pass
+    if inline_form or helper_form:
+        ctx.ok("R8.2", nb.loc(), "members: declared safety overrides the type-derived one", nontrivial=False)
+    elif helper_form is False:
+        ctx.violation("R8.2", nb.loc(), "named|declared-overrides", "a declared safety must override the type-derived one (Some(declared) -> declared, None -> type safety)")
+    else:
+        ctx.note("R8.2 declared-overrides: form not recognised; decided on the instance by R8.4")
     # ---------------- R8.3 memo discipline
     cell_writers = []
     for b in c.bodies:
